@@ -401,6 +401,11 @@ def reset_system(power_system: PowerSystem, save_flag: bool):
     for comp in power_system.comp_list:
         comp.reset_status(save_flag)
     power_system.controller.reset_status(save_flag)
+    # Lines that were taken out of service or turned are registered on
+    # their buses in a different order, the order they were built with
+    # is restored (the load flow sums in that order)
+    for bus in power_system.buses:
+        bus.restore_line_order()
 
     ## Find sub systems
     find_sub_systems(power_system, 0)
